@@ -149,6 +149,7 @@ type c13xSub struct {
 	got       map[string]bool
 	ended     string // terminal status received by the consumer
 	cancelled bool   // by the harness
+	ctxEnded  bool   // the consumer left because its context ended (it closes the subscription itself)
 	judgedD   bool
 }
 
@@ -187,11 +188,18 @@ func (s *c13xSub) consume() {
 			s.ended = st.Code().String()
 			s.mu.Unlock()
 			s.cancel()
+			s.sub.Close() // api.Subscribe: defer sub.Close()
 			return
 		case <-s.sub.Closed():
 			s.cancel()
 			return
 		case <-s.ctx.Done():
+			// the request context ended: api.Subscribe returns and its deferred
+			// sub.Close() lets a loop parked on the message channel go
+			s.mu.Lock()
+			s.ctxEnded = true
+			s.mu.Unlock()
+			s.sub.Close()
 			return
 		}
 	}
@@ -661,10 +669,13 @@ func (c *c13xCase) check() {
 		if s.group == "" || s.judgedD || !s.closed() {
 			continue
 		}
-		s.judgedD = true
 		s.mu.Lock()
-		cancelled := s.cancelled
+		cancelled := s.cancelled || s.ctxEnded || s.ended != ""
 		s.mu.Unlock()
+		if cancelled {
+			continue // closed by its own consumer side, as api.Subscribe does on return
+		}
+		s.judgedD = true
 		explained := false
 		var later []string
 		for _, a := range c.acc {
@@ -678,9 +689,6 @@ func (c *c13xCase) check() {
 		if explained {
 			c.n("replacements_on_one_server")
 			continue
-		}
-		if cancelled {
-			continue // its own consumer side is gone; nobody is harmed
 		}
 		c.violation("C13:cluster:holder-cancelled-without-successor",
 			fmt.Sprintf("subscription #%d (consumer %s, epoch %d, on server %s) was closed by the server although no subscribe of its group with an equal or newer epoch was accepted on that server after it (accepted there since: %v)", s.id, s.cid, s.epoch, s.node, later), nil)
